@@ -356,6 +356,61 @@ def paren_check(ctx, exe, sc):
                bad == 0, "corr", "%d mismatches" % bad)
 
 
+def int_types_check(ctx, exe, sc, thorough):
+    """mod_int_* / mod_*_int: every declaration of the universe of vlib/inttycheck.py that gcc accepts must still be accepted after
+    formatting and declare the same type (`__builtin_types_compatible_p`), under every listed setting of the nine options"""
+    from vlib import inttycheck as itc
+    lines, _pp = itc.universe(ctx.rng)
+    decls = [ln for ln in lines if len(ln) >= 3 and ln[-2][0].startswith("v") and ln[-1][0] == ";" and all(w in itc.ALPHA for w, _ in ln[:-2])]
+    src = "".join(" ".join(w for w, _ in ln) + "\n" for ln in decls)
+    p = sc.write(src, ".c")
+    r = subprocess.run(["gcc", "-fsyntax-only", "-w", "-std=gnu11", "-fmax-errors=0", p], stdout=subprocess.PIPE, stderr=subprocess.PIPE)
+    badl = {int(m.group(1)) for m in re.finditer(r":(\d+):\d+: error", r.stderr.decode("latin1"))}
+    valid = [ln for i, ln in enumerate(decls) if (i + 1) not in badl]
+    ctx.count("intty:valid-declarations", len(valid))
+    text = "".join(" ".join(w for w, _ in ln) + "\n" for ln in valid)
+    sets = itc.settings(ctx.rng, 80 if thorough else 16)
+
+    def one(k):
+        rc, out = itc.run_real(exe, text, sets[k], sc.dir, "c01k%d" % k)
+        if rc != 0:
+            return rc, None, None
+        ol = [l for l in out.split("\n") if l.strip()]
+        if len(ol) != len(valid):
+            return "lines", None, None
+        chk = []
+        for ln, o in zip(valid, ol):
+            name = ln[-2][0]
+            a = " ".join(w for w, _ in ln).replace(name, "a_" + name)
+            b = re.sub(r"\b%s\b" % name, "b_" + name, o)
+            chk.append("%s %s _Static_assert(__builtin_types_compatible_p(__typeof__(a_%s), __typeof__(b_%s)), \"t\");" % (a, b, name, name))
+        q = os.path.join(sc.dir, "intty_chk%d.c" % k)
+        with open(q, "w") as f:
+            f.write("\n".join(chk) + "\n")
+        g = subprocess.run(["gcc", "-fsyntax-only", "-w", "-std=gnu11", "-fmax-errors=0", q], stdout=subprocess.PIPE, stderr=subprocess.PIPE)
+        errs = sorted({int(m.group(1)) for m in re.finditer(r":(\d+):\d+: error", g.stderr.decode("latin1"))})
+        return 0, errs, ol
+    res = common.pmap(one, list(range(len(sets))))
+    bad = 0
+    for st, (rc, errs, ol) in zip(sets, res):
+        ctx.case("intty-types:%s" % sorted(st.items()), nontrivial=True)
+        if rc != 0:
+            bad += 1
+            ctx.violation("mod_int options %s: uncrustify fails on the declaration universe (%s)" % (st, rc), {"options": st}, key=None, found_input=False)
+            continue
+        if errs:
+            bad += 1
+            if bad <= 3:
+                i = errs[0] - 1
+                ctx.violation("with %s the declaration `%s` is written `%s`: it no longer compiles or declares another type (%d of %d declarations)"
+                              % ({k: v for k, v in st.items() if v != "ignore"}, " ".join(w for w, _ in valid[i]), ol[i].strip(), len(errs), len(valid)),
+                              {"options": st, "input_text": " ".join(w for w, _ in valid[i]) + "\n", "lang": "C",
+                               "how": "uncrustify -q -c cfg -l C; gcc -fsyntax-only with _Static_assert(__builtin_types_compatible_p(...))"},
+                              key={"kind": "int-keyword-changes-type", "decl": [w for w, _ in valid[i][:-2]]}, found_input=True)
+    ctx.oblige("search: mod_int_* / mod_*_int keep every valid declaration of the universe valid and of the same type (%d settings x %d declarations)"
+               % (len(sets), len(valid)), bad == 0, "oracle", "%d settings" % bad)
+
+
 def run(ctx):
     ctx.cov["rule"] = ("one case = (generated compilable program, configuration): uncrustify must exit 0 and the output must compile (gcc/g++/javac, "
                        "same flags) to the same object bytes as the input; configuration = defaults, one option singly at an enumerated/boundary "
@@ -377,6 +432,7 @@ def run(ctx):
     sc = pipeline.Scratch("c01")
     try:
         skeleton_check(ctx, exe, sc, thorough)
+        int_types_check(ctx, exe, sc, thorough)
         paren_check(ctx, exe, sc)
         progs = []
         for i in range(36 if thorough else 14):
